@@ -162,6 +162,41 @@ Definition run_for (k : kind) (filtered : bool) (p : item -> bool) (d0 : Z) (xs 
   | None => None
   end.
 
+(* loop controls (jinja2.ext.loopcontrols): `continue` skips the rest of the body — the queries
+   listed for an iteration are those that run before it — and `break` ends the loop after the
+   iteration.  The iteration indicator is cleared when the body is ENTERED (code after /repo
+   commit 6e4d8bf), so a body that never reaches its end still counts as an iteration. *)
+Inductive ctl := Go | Continue | Break.
+
+Fixpoint run_ctl_go (fuel : nat) (k : kind) (s : st) (script : list (list query)) (ctls : list ctl)
+         (indicator : bool) : option (list (item * list answer) * bool) :=
+  match fuel with
+  | O => None
+  | S fuel' =>
+      match m_next s with
+      | None => Some ([], indicator)
+      | Some (x, s1) =>
+          let indicator1 := false in                      (* t_n = 0 at the top of the body *)
+          let '(s2, ans) := m_queries k s1 (hd [] script) in
+          match hd Go ctls with
+          | Break => Some ([(x, ans)], indicator1)
+          | _ => match run_ctl_go fuel' k s2 (tl script) (tl ctls) indicator1 with
+                 | Some (l, i) => Some ((x, ans) :: l, i)
+                 | None => None
+                 end
+          end
+      end
+  end.
+
+Definition run_for_ctl (k : kind) (filtered : bool) (p : item -> bool) (d0 : Z) (xs : list item)
+           (script : list (list query)) (ctls : list ctl) : option loop_out :=
+  let src := if filtered then filter p xs else xs in
+  let k' := if filtered then Unsized else k in
+  match run_ctl_go (S (length src)) k' (init src d0) script ctls true with
+  | Some (l, i) => Some {| visited := l; else_taken := i |}       (* if t_n: <else body> *)
+  | None => None
+  end.
+
 (* recursive loops: loop(children) = self._recurse(children, self._recurse, depth=self.depth);
    each node reports loop.depth0 of the LoopContext it is visited by *)
 Inductive tree := Node (label : N) (children : list tree).
